@@ -107,4 +107,20 @@ ENTRIES = {
         "note": TB + "; the Python front end named as a mechanism is not exercised (its constructors forward to the Rust ones; Miri cannot cross the FFI)",
         "technique": "runtime monitoring: negative-input generation per constructor with the exact reference-model validity checker as acceptance oracle; std UB/overflow checks",
     },
+    "C09": {
+        "text": "Injects out-of-support symbols - including values that alias an in-support symbol after narrowing to the probability type - at random points of "
+                "encode histories on ANS, range and chain coders and Huffman-coded bit streams, for every encoder-capable model family; requires the documented "
+                "impossible-symbol error, bit-identical raw parts after the failure and a correct round trip of everything else. For the ANS coder it ENUMERATES the "
+                "write-failure point k over all writes of each generated message and all bounded-sink capacities, checking intactness, decodability and that encoding "
+                "can continue to the fault-free result.",
+        "note": TB + "; fault injection through a harness backend implementing the public WriteWords/ReadWords traits",
+        "technique": "runtime monitoring with fault injection: failing/bounded backends at every write index, raw-parts invariants, round-trip oracle",
+    },
+    "C10": {
+        "text": "Decodes hostile and corrupted word sequences with every decoder and model family under the standard library's unsafe-precondition and overflow checks "
+                "(quick) and additionally AddressSanitizer and Miri (thorough); any panic, abort, sanitizer report, hang (CPU-time watchdog), undocumented error or "
+                "symbol outside the model's support is a violation. Lookup-table and lazily quantised models get most of the budget because they index tables unchecked.",
+        "note": TB + "; ASan/Miri flavours are optional: if the nightly build is unavailable the run is INCONCLUSIVE for that flavour, never silently green",
+        "technique": "runtime monitoring under sanitizers: std UB checks + overflow checks, AddressSanitizer, Miri; support-membership oracle; hang watchdog",
+    },
 }
